@@ -33,13 +33,14 @@ parts = [
        ("C05+C07:needs_64_bytes", "old(buffer)@.len() < 64 ==> (r matches Ok(None)) && final(buffer)@ == old(buffer)@"),
        ("C05+C07:consumes_exactly_64", "old(buffer)@.len() >= 64 ==> !(r matches Ok(None)) && final(buffer)@ == old(buffer)@.subrange(64, old(buffer)@.len() as int)"),
        ("C05+C07:accepts_exactly_wellformed", "old(buffer)@.len() >= 64 ==> ((r matches Ok(Some(_))) <==> greeting_ok(old(buffer)@.subrange(0, 64)))"),
+       ("C04:consumes_from_the_front_only", "final(buffer).stream() =~= old(buffer).stream()"),
        ("C05:fields", "r matches Ok(Some(g)) ==> g.version.0 == 3 && g.version.1 == old(buffer)@[11] && g.mechanism@ == old(buffer)@.subrange(12, 32) && g.as_server == (old(buffer)@[32] == 1)"),
      ],
      extra=[("R8", "mechanism_slice.try_into().unwrap()", "verif_array20(mechanism_slice)", 1),
             ("R5", "Ok(Some(Self {", "Ok(Some(ZmtpGreeting {", 1)],
      loops={0: {"ghost_iter": "it",
                 "invariant": ["data@ == old(buffer)@.subrange(0, 64)", "data@.len() == 64", "old(buffer)@.len() >= 64",
-                              "buffer@ == old(buffer)@.subrange(64, old(buffer)@.len() as int)",
+                              "buffer@ == old(buffer)@.subrange(64, old(buffer)@.len() as int)", "buffer.stream() =~= old(buffer).stream()",
                               "forall|j: int| 33 <= j < 33 + it.index@ ==> data@[j] == 0", "it.index@ <= 31"]}},
      hints=[("pad", "re:let major_version = ", 0, "before", "proof { assert(forall|j: int| 33 <= j < 64 ==> data@[j] == 0); }")]),
   Fn(GR, "encode", impl=r"impl\s+ZmtpGreeting\b", emit_impl="impl ZmtpGreeting",
